@@ -1,0 +1,59 @@
+//! Verification hooks (cargo feature `verif`, off by default).
+//!
+//! Nothing in here changes behaviour unless a harness explicitly asks for it:
+//! the capacity overrides default to `None` (library defaults are used) and the
+//! counters are write-only from the library's point of view.
+
+use std::cell::Cell;
+
+pub use crate::backing_store::{BackedRobinhoodTable, UniqueTable};
+
+thread_local! {
+    static UNIQUE_CAP: Cell<Option<usize>> = const { Cell::new(None) };
+    static LRU_ITE_CAP_BITS: Cell<Option<usize>> = const { Cell::new(None) };
+    static UNIQUE_GROWS: Cell<u64> = const { Cell::new(0) };
+    static LRU_GROWS: Cell<u64> = const { Cell::new(0) };
+    static LRU_CONFLICTS: Cell<u64> = const { Cell::new(0) };
+}
+
+/// Initial number of slots of every unique table created afterwards on this
+/// thread (`None` = library default).
+pub fn set_unique_table_capacity(cap: Option<usize>) {
+    UNIQUE_CAP.with(|c| c.set(cap));
+}
+
+pub(crate) fn unique_table_capacity() -> Option<usize> {
+    UNIQUE_CAP.with(|c| c.get())
+}
+
+/// Initial capacity (as a power of two) of every lossy ITE cache created
+/// afterwards on this thread (`None` = library default).
+pub fn set_lru_ite_capacity_bits(bits: Option<usize>) {
+    LRU_ITE_CAP_BITS.with(|c| c.set(bits));
+}
+
+pub(crate) fn lru_ite_capacity_bits() -> Option<usize> {
+    LRU_ITE_CAP_BITS.with(|c| c.get())
+}
+
+pub(crate) fn note_unique_grow() {
+    UNIQUE_GROWS.with(|c| c.set(c.get() + 1));
+}
+
+pub(crate) fn note_lru_grow() {
+    LRU_GROWS.with(|c| c.set(c.get() + 1));
+}
+
+pub(crate) fn note_lru_conflict() {
+    LRU_CONFLICTS.with(|c| c.set(c.get() + 1));
+}
+
+/// (unique-table growths, lossy-cache growths, lossy-cache overwrites) observed
+/// on this thread since the last call; resets the counters.
+pub fn take_counters() -> (u64, u64, u64) {
+    (
+        UNIQUE_GROWS.with(|c| c.replace(0)),
+        LRU_GROWS.with(|c| c.replace(0)),
+        LRU_CONFLICTS.with(|c| c.replace(0)),
+    )
+}
